@@ -383,6 +383,10 @@ POLICIES = [(0, c2, c3) for c3 in range(3) for c2 in range(2)]
 
 
 # ------------------------------------------------------------------ plan / run
+# hetero atoms with three or four aromatic bonds (spiro centres of two aromatic-notation rings, fusion atoms)
+HETERO_EXTRA = ["c1cs2(cc1)cccc2", "s12(cccc1)cccc2", "Cp12(cccc1)cccc2", "c1ccc2c(c1)s1(cccc1)cc2", "c1cc2cccn2c1", "c1ccn2cccc2c1"]
+
+
 def plan(tier, seed):
     thorough = tier == "thorough"
     scopes, tasks = [], []
@@ -448,10 +452,10 @@ def plan(tier, seed):
         for s0 in range(0, nn, 10):
             tasks.append(("api/cages", ("cage", name, s0, min(nn, s0 + 10))))
     from mc.props import c06 as _c06
-    scopes.append({"name": "hetero-skeletons", "skeletons": _c06.AROM, "substituents": ["", "C", "F", "=O", "O"],
+    scopes.append({"name": "hetero-skeletons", "skeletons": _c06.AROM + HETERO_EXTRA, "substituents": ["", "C", "F", "=O", "O"],
                    "desc": "named hetero-aromatic skeletons incl. hetero atoms saturated in a higher valence state (s(=O), p(=O)(C), "
                            "n(C), [n+]) with one substituent at every position, alone and as second fragment"})
-    for k in range(len(_c06.AROM)):
+    for k in range(len(_c06.AROM) + len(HETERO_EXTRA)):
         tasks.append(("hetero-skeletons", ("hetero", k)))
     return {"scopes": scopes, "tasks": tasks, "bounds": {"graphs_n": 8, "chain_chords": [nc, kc], "ring_forms": [na, ra]},
             "weight": lambda t: (5 if t[1][0] in ("carbon8", "cage") else (t[1][1] if t[1][0] in ("graphs", "forms", "subst") else 1))}
@@ -520,7 +524,8 @@ def run(task):
         return r
     if kind == "hetero":
         from mc.props import c06 as _c06
-        for smi in sorted(_c06.aromatic_variants(_c06.AROM[arg[1]])):
+        skel = (_c06.AROM + HETERO_EXTRA)[arg[1]]
+        for smi in sorted(_c06.aromatic_variants(skel)):
             r.states += 1
             last = (smi, check_smiles(smi, r))
             check_smiles("c1ccccc1." + smi, r)
